@@ -132,7 +132,9 @@ def kernels(rng, thorough):
             out.append(base(cls_i + 6 * i, ad))
             i += 1
     # depth 2: every operator x (kernel | scalar left/right) for a sample of operands
-    ops = ["add", "mul", "pow", "radd", "rmul", "adds", "muls"]
+    # "mula" / "adda" / "powa": the scalar operand is a 0-d JAX / NumPy array (e.g. `Matern52(ls) * jnp.var(y)`), which is
+    # serialised as a {"type": "jax.numpy", ...} dictionary just like an array-valued attribute
+    ops = ["add", "mul", "pow", "radd", "rmul", "adds", "muls", "mula", "adda", "powa"]
     bases = out[:: 5]
     for op in ops:
         for a in bases[: (12 if thorough else 5)]:
@@ -149,6 +151,12 @@ def kernels(rng, thorough):
                     e = 3 * a
                 elif op == "adds":
                     e = a + 0.25
+                elif op == "mula":
+                    e = a * jnp.asarray(2.5)
+                elif op == "adda":
+                    e = a + np.asarray(0.125)
+                elif op == "powa":
+                    e = a ** jnp.asarray(2)
                 else:
                     e = a * np.float64(1.5)
                 out.append(e)
